@@ -74,6 +74,16 @@ func (z *zipSel) tablesOf(r *selRoles) []*selTable {
 // path of the caller; the selection inputs are the captured variables of the element (as for the walk callback
 // itself) and the parameters that are handed a selection input of the caller.
 func (z *zipSel) elemRoles(r *selRoles, call *ssa.Call, elem ssa.Value, idx int) *selRoles {
+	h := z.elemRolesAny(r, call, elem, idx)
+	if h == nil || (len(h.filters) == 0 && len(h.flags) == 0) {
+		return nil
+	}
+	return h
+}
+
+// elemRolesAny is elemRoles without the demand that the element reads a selection input (R10 asks every element of a
+// table why it says "skip", also the one that looks at the kind of the file only).
+func (z *zipSel) elemRolesAny(r *selRoles, call *ssa.Call, elem ssa.Value, idx int) *selRoles {
 	var cal *ssa.Function
 	switch e := elem.(type) {
 	case *ssa.Function:
@@ -127,9 +137,6 @@ func (z *zipSel) elemRoles(r *selRoles, call *ssa.Call, elem ssa.Value, idx int)
 		if pt, ok := fv.Type().Underlying().(*types.Pointer); ok {
 			classify(h, &selInput{fv: fv, typ: pt.Elem()})
 		}
-	}
-	if len(h.filters) == 0 && len(h.flags) == 0 {
-		return nil
 	}
 	h.key = key + ")"
 	return h
